@@ -96,7 +96,11 @@ pub fn guarded<F: FnOnce() -> ImplOut>(f: F) -> ImplOut {
 /// entry point is driven over a native `AsyncSkip` reader that suspends every operation once - rotating with the
 /// input: the answer may not depend on the carrier, so every MP4 check exercises all of them.
 pub fn run_mp4(s: &Sparse, cfg: &Cfg, kind: Kind) -> ImplOut {
-    let carrier = (s.len ^ (s.len >> 7) ^ cfg.max) % 4;
+    run_mp4_carrier(s, cfg, kind, (s.len ^ (s.len >> 7) ^ cfg.max) % 4)
+}
+
+/// the same with the carrier chosen by the caller (0 by value, 1 by `&mut`, 2 boxed, 3 async and suspended)
+pub fn run_mp4_carrier(s: &Sparse, cfg: &Cfg, kind: Kind, carrier: u64) -> ImplOut {
     guarded(|| match (kind, carrier) {
         (Kind::Seekable, 3) => crate::c12::run_async_every_op_suspended(s, cfg, false),
         (Kind::Strict, 3) => crate::c12::run_async_every_op_suspended(s, cfg, true),
